@@ -53,7 +53,9 @@ type immCfg struct {
 	// Stream: Config.StreamRequestBody (a request body is a stream until it is first read)
 	Stream bool
 	// Via: how the capture route is reached — 0 straight from the request handler; 1 through a
-	// middleware that calls c.Next(); 2 through a middleware that first calls c.RestartRouting()
+	// middleware that calls c.Next(); 2 through a middleware that first calls c.RestartRouting();
+	// 3 through a middleware registered with the capture route's own parameterised pattern.
+	// The middleware reads every accessor itself before it passes on.
 	Via int
 }
 
@@ -100,8 +102,9 @@ type immReq struct {
 	Method string
 	Target string
 	Path   string
-	Host   string // Host header
-	CType  string // Content-Type as sent (contains upper-case letters)
+	Host   string      // Host header
+	Parsed [][2]string // further headers that ctx methods parse, as sent
+	CType  string      // Content-Type as sent (contains upper-case letters)
 	Accept string
 	Proto  string // HTTP/1.1 or HTTP/1.0 (with Connection: keep-alive)
 	FProto string // X-Forwarded-Proto value
@@ -356,8 +359,21 @@ func genImmReq(r *gen.Rand, sh *immShape, idx int) *immReq {
 	q.CType = ctype
 	q.Accept = "Text/HTML;Level=1;q=0.9, Application/JSON;Version=2;Charset=UTF-8;q=0.8, */*;q=0.1"
 	raw.WriteString("Content-Type: " + ctype + "\r\n")
-	raw.WriteString("Accept: " + q.Accept + "\r\nAccept-Language: en-US, De;q=0.5\r\nAccept-Charset: UTF-8\r\nAccept-Encoding: GZip, Br\r\n")
-	raw.WriteString("Range: ru" + v["rgu"] + "=0-9\r\nIf-None-Match: W/\"" + v["xc"] + "\"\r\nCache-Control: Max-Age=0\r\nX-Requested-With: XMLHttpRequest\r\n")
+	raw.WriteString("Accept: " + q.Accept + "\r\n")
+	// every header some ctx method parses, with mixed-case content
+	q.Parsed = [][2]string{
+		{"Accept-Language", "en-US;Q=0.9, De-CH;q=0.5"},
+		{"Accept-Charset", "UTF-8, ISO-8859-1;Q=0.3"},
+		{"Accept-Encoding", "GZip, Br;Q=0.5"},
+		{"Range", "ru" + v["rgu"] + "=0-9"},
+		{"If-None-Match", "W/\"" + v["xc"] + "\", \"AbC" + v["xc"] + "\""},
+		{"If-Modified-Since", "Wed, 21 Oct 2015 07:28:00 GMT"},
+		{"Cache-Control", "Max-Age=0, No-Transform, Private=\"X-" + v["xc"] + "\""},
+		{"X-Requested-With", "XMLHttpRequest"},
+	}
+	for _, h := range q.Parsed {
+		raw.WriteString(h[0] + ": " + h[1] + "\r\n")
+	}
 	chunked := sh.Chunked && len(q.Body) > 0 && (q.Method == "POST" || q.Method == "PUT")
 	if chunked {
 		raw.WriteString("Transfer-Encoding: chunked\r\n\r\n")
@@ -596,6 +612,16 @@ func capture(c fiber.Ctx, q *immReq, cfg immCfg, s *capSet, matched, withResp bo
 	s.S("Get", c.Get("X-Custom"), v["xc"])
 	s.S("Get", c.Get(fiber.HeaderContentType), q.CType)
 	s.S("Get.Accept", c.Get(fiber.HeaderAccept), q.Accept)
+	for _, h := range q.Parsed {
+		if h[0] == "Accept-Encoding" && !withResp {
+			continue // SendFile (run before the third read) removes this header from the request by design
+		}
+		s.S("Get."+h[0], c.Get(h[0]), h[1])
+	}
+	s.S("Get.X-Forwarded-For", c.Get("X-Forwarded-For"), q.IP[0]+", "+q.IP[1])
+	if q.HasFP {
+		s.S("Get.X-Forwarded-Proto", c.Get("X-Forwarded-Proto"), q.FProto)
+	}
 	s.S("GetReqHeader[T]", fiber.GetReqHeader[string](c, "X-Custom"), v["xc"])
 	s.B("GetReqHeader[[]byte]", fiber.GetReqHeader[[]byte](c, "X-Custom"), []byte(v["xc"]), true)
 	hm := c.GetReqHeaders()
@@ -924,13 +950,22 @@ func immBuild(cfg immCfg, immutable bool, side *immSide) *fiber.App {
 	side.app = app
 	if cfg.Via != 0 {
 		type restarted struct{}
-		app.Use(func(c fiber.Ctx) error {
+		mw := func(c fiber.Ctx) error {
 			if cfg.Via == 2 && c.Locals(restarted{}) == nil {
 				c.Locals(restarted{}, true)
 				return c.RestartRouting()
 			}
+			// an access logger / authoriser: looks at everything, keeps nothing
+			if i := side.served; i < len(side.reqs) && strings.HasPrefix(c.Path(), "/cap/") {
+				capture(c, side.reqs[i], cfg, &capSet{phase: "middleware"}, cfg.Via == 3, false)
+			}
 			return c.Next()
-		})
+		}
+		if cfg.Via == 3 {
+			app.Use(capRoute, mw)
+		} else {
+			app.Use(mw)
+		}
 	}
 	app.Post("/nested", func(c fiber.Ctx) error { return c.SendString("nested " + strconv.Itoa(len(c.Body()))) })
 	app.Get("/named/:id", func(c fiber.Ctx) error { return c.SendString("named") }).Name("named")
@@ -999,6 +1034,9 @@ func immObserver(cfg immCfg, side *immSide) func(c fiber.Ctx, matched bool) erro
 		// the values handed out so far must still read the same
 		responseHelpers(c, dir, func(step string) {
 			for _, cp := range cs.caps {
+				if step == "Path(override)" && (cp.acc == "Path" || cp.acc == "Req.Path" || cp.acc == "String") {
+					continue // the handler asked for another path: these name the path itself
+				}
 				if cp.changed() && !cp.flagged {
 					cp.flagged = true
 					side.unstable = append(side.unstable, map[string]any{"accessor": cp.acc, "got": strings.Clone(cp.now()), "at_capture": cp.was(),
@@ -1044,6 +1082,15 @@ func responseHelpers(c fiber.Ctx, dir string, after func(step string)) {
 			)
 		}},
 		{"Redirect.To", func() { _ = c.Redirect().With("k", "v", 0x41).To("/elsewhere") }},
+		{"Path(override)", func() {
+			if !strings.HasPrefix(c.Path(), "/cap/") {
+				return // only on the matched capture route
+			}
+			orig := strings.Clone(c.Path())
+			c.Path("/cap/overridden-" + strings.Repeat("o", len(orig)))
+			after("Path(override)")
+			c.Path(orig)
+		}},
 		{"SendFile(missing)", func() { _ = c.SendFile(dir+"/no-such-file.txt", fiber.SendFile{CacheDuration: -1}) }},
 		{"SendFile(existing)", func() { _ = c.SendFile(dir+"/a.txt", fiber.SendFile{CacheDuration: -1}) }},
 		{"SendFile(FS, short name)", func() {
@@ -1124,7 +1171,7 @@ func runImmutable(e *ev.Env) {
 	e.Cases("run", e.N(300, 20000), func(c *ev.Case) {
 		r := c.R
 		cfg := immCfg{Custom: r.Chance(1, 3), CaseSens: r.Bool(), Strict: r.Bool(), Unescape: r.Bool(), Proxy: r.Intn(5), Split: r.Bool(),
-			ReduceMem: r.Chance(1, 3), Nested: r.Chance(1, 3), ZeroCopyJSON: r.Chance(1, 3), Stream: r.Chance(1, 3), Via: r.PickW(2, 1, 1)}
+			ReduceMem: r.Chance(1, 3), Nested: r.Chance(1, 3), ZeroCopyJSON: r.Chance(1, 3), Stream: r.Chance(1, 3), Via: r.PickW(3, 1, 1, 2)}
 		sh := genShape(r)
 		if cfg.Via != 0 {
 			sh.Route = 0 // a catch-all middleware enters a route for every request
@@ -1132,7 +1179,101 @@ func runImmutable(e *ev.Env) {
 		n := gen.Pick(r, []int{1, 3, 10})
 		judgeImm(e, c, cfg, sh, n, r)
 	})
+	// family rematch: a parameterised middleware reads its parameters, passes on with Next(), no
+	// route takes the request (404/405, after the router tried the routes registered for this and
+	// for the other methods), and the middleware looks at its parameters again before it returns
+	e.Cases("rematch", e.N(200, 5000), func(c *ev.Case) { judgeRematch(e, c, c.R.Intn(len(rematchLayouts)), c.R) })
 	e.Note("nontrivial_rule", "(accessor, capture request) pairs whose reference was seen changing in the Immutable:false positive control")
+}
+
+// rematchLayouts: a Use pattern with parameters, a route of ANOTHER method (or of the same method,
+// not matching) whose pattern shares a prefix with the request path, and how the path is built.
+var rematchLayouts = []struct {
+	use, other, otherMethod string
+	path                    func(a, b string) string
+	want                    func(a, b string) map[string]string
+}{
+	{"/:tenant", "/x:rest", "POST", func(a, _ string) string { return "/x" + a },
+		func(a, _ string) map[string]string { return map[string]string{"tenant": "x" + a} }},
+	{"/:tenant/:area", "/:tenant/x:rest", "PUT", func(a, b string) string { return "/" + a + "/x" + b },
+		func(a, b string) map[string]string { return map[string]string{"tenant": a, "area": "x" + b} }},
+	{"/t/:tenant", "/t/pre-:rest/more", "GET", func(a, _ string) string { return "/t/pre-" + a },
+		func(a, _ string) map[string]string { return map[string]string{"tenant": "pre-" + a} }},
+	{"/files/*", "/files/:name.:ext", "DELETE", func(a, b string) string { return "/files/" + a + "." + b },
+		func(a, b string) map[string]string { return map[string]string{"*1": a + "." + b} }},
+	{"/:a/:b", "/:b/:a/extra", "POST", func(a, b string) string { return "/" + a + "/" + b },
+		func(a, b string) map[string]string { return map[string]string{"a": a, "b": b} }},
+}
+
+func judgeRematch(e *ev.Env, c *ev.Case, li int, r *gen.Rand) {
+	lay := rematchLayouts[li]
+	for _, immutable := range []bool{true, false} {
+		type seen struct {
+			name, live, clone, want string
+		}
+		var obs []seen
+		var report []map[string]any
+		nextFailed := false
+		app := fiber.New(fiber.Config{Immutable: immutable, ErrorHandler: func(c fiber.Ctx, err error) error {
+			return c.Status(404).SendString("no route")
+		}})
+		var cur map[string]string
+		app.Use(lay.use, func(c fiber.Ctx) error {
+			obs = obs[:0]
+			for _, p := range c.Route().Params {
+				v := c.Params(p)
+				obs = append(obs, seen{p, v, strings.Clone(v), cur[p]})
+			}
+			err := c.Next()
+			nextFailed = err != nil
+			if err != nil {
+				for _, o := range obs {
+					if o.clone != o.want {
+						report = append(report, map[string]any{"sig": "wrong-value|Params.before-next", "param": o.name, "got": o.clone, "want": o.want})
+					}
+					if o.live != o.clone {
+						report = append(report, map[string]any{"sig": "handler-unstable|Params.across-next", "param": o.name, "got": strings.Clone(o.live), "at_capture": o.clone})
+					}
+					if again := c.Params(o.name); again != o.want {
+						report = append(report, map[string]any{"sig": "wrong-value|Params.after-next", "param": o.name, "got": strings.Clone(again), "want": o.want})
+					}
+				}
+			}
+			return err
+		})
+		app.Add([]string{lay.otherMethod}, lay.other, func(c fiber.Ctx) error { return c.SendString("other") })
+		n := r.Range(1, 4)
+		served := 0
+		w := drive.NewWire(app)
+		for i := 0; i < n; i++ {
+			a, b := r.StringFrom(gen.AlphaNum, r.Range(2, 10)), r.StringFrom(gen.AlphaNum, r.Range(2, 10))
+			cur = lay.want(a, b)
+			m := "GET"
+			if lay.otherMethod == "GET" {
+				m = "POST"
+			}
+			raw := m + " " + lay.path(a, b) + " HTTP/1.1\r\nHost: example.com\r\nContent-Length: 0\r\n\r\n"
+			out, _ := w.Serve([]byte(raw), nil)
+			rs, _ := splitResponses(out)
+			if len(rs) == 1 {
+				served++
+			}
+			e.Eval(1)
+			if nextFailed {
+				e.Nontrivial(c.ID, strconv.FormatBool(immutable), strconv.Itoa(i))
+			}
+			for _, rp := range report {
+				sig := rp["sig"].(string)
+				delete(rp, "sig")
+				rp["use_pattern"], rp["other_route"], rp["request"], rp["immutable"] = lay.use, lay.otherMethod+" "+lay.other, raw, immutable
+				e.Violation(c, sig, "a route parameter read by a middleware is not what the path contains / changed across c.Next() although no other route took the request", rp)
+			}
+			report = report[:0]
+		}
+		if served != n {
+			e.Inconclusive(fmt.Sprintf("%s: rematch layout %d answered %d of %d requests", c.ID, li, served, n))
+		}
+	}
 }
 
 func judgeImm(e *ev.Env, c *ev.Case, cfg immCfg, sh *immShape, n int, r *gen.Rand) {
@@ -1346,6 +1487,10 @@ func immCorpus(e *ev.Env) {
 		sh.Kind, sh.Route = "form", 0
 		judgeImm(e, c, immCfg{Custom: true, Via: 2}, sh, 3, c.R)
 	})
+	for li := range rematchLayouts {
+		li := li
+		e.Corpus("rematch-layout-"+strconv.Itoa(li), func(c *ev.Case) { judgeRematch(e, c, li, c.R) })
+	}
 	e.Corpus("splitting-commas-form", func(c *ev.Case) {
 		sh := genShape(c.R)
 		sh.Kind, sh.Comma = "form", true
